@@ -15,6 +15,11 @@ def run(F, R):
     table = json.load(open(os.path.join(facts.VERIF, "tables", "omaha_v3_request.json")))
 
     # ---------------------------------------------------------------- R1 serialisation schema
+    # .. "updatecheck flags only when true" has two halves: the skip predicates of the schema (below), and every true flag
+    # of the parameters reaching the UpdateCheck that is serialised (shared with C05-R3)
+    from . import c05 as _c05
+    from .. import report as _report
+    _c05._builder_field_flow(_report.SubsetAlias(R, {"C05-R3": "C15-R1"}, prefix="flags:", keys={"updatecheck-flags"}), c, W)
     R.rule("C15-R1", "the serialisation schema extracted from the Serialize impls in force (keys, order, skip predicates, flattening, enum codes, GUID/Version forms) equals the Omaha v3 request table")
     n = 0
     for ty, exp in table["structs"].items():
@@ -87,8 +92,26 @@ def run(F, R):
         hdr = dict(tuples)
         R.check("C15-R2", "header:content-type", any(k in ("as_str(http::header::CONTENT_TYPE)", "as_str(hyper::header::CONTENT_TYPE)", "'content-type'") and v == "to_string('application/json')" for k, v in tuples), "content-type: application/json", "content-type header: %s" % [kv for kv in tuples if "CONTENT" in kv[0].upper()])
         R.check("C15-R2", "header:updater", hdr.get("'X-Goog-Update-Updater'") == "self.config.updater.name", hdr.get("'X-Goog-Update-Updater'"), "updater header <- %s" % hdr.get("'X-Goog-Update-Updater'"))
-        R.check("C15-R2", "header:app-id", hdr.get("'X-Goog-Update-AppId'") in ("first(self.app_entries)@Some.0.app.id", "get(self.app_entries, 0)@Some.0.app.id", "next(iter(self.app_entries))@Some.0.app.id"),
-                str(hdr.get("'X-Goog-Update-AppId'")), "app-id header <- %s (must be the first entry)" % hdr.get("'X-Goog-Update-AppId'"))
+        aid_ = hdr.get("'X-Goog-Update-AppId'")
+        FIRSTS = ("first(self.app_entries)", "get(self.app_entries, 0)", "next(iter(self.app_entries))")
+        if aid_ is None:
+            # the pair may be built by a closure mapped over the first entry: `self.app_entries.first().map(|e| (HEADER_APP_ID, e.app.id.clone()))`
+            for hv_ in lib.with_private_callees(W, bi):
+                for bi2_, t2_ in hv_.calls():
+                    if not lib.callee_is(t2_, "std::option::Option::<T>::map") or len(t2_["args"]) != 2:
+                        continue
+                    src_ = terms.render(hv_, hv_.trace_op(t2_["args"][0]), W, N)
+                    clo_ = [x for x in walk(hv_.trace_op(t2_["args"][1])) if x[0] == "agg" and x[1] == "closure" and x[2] in W.by_id]
+                    if src_ not in FIRSTS or not clo_:
+                        continue
+                    cb_ = W.bv(clo_[0][2])
+                    rt_ = strip(cb_.trace_local(0))
+                    if rt_[0] == "agg" and rt_[1] == "tuple" and len(rt_[3]) == 2 and terms.render(cb_, rt_[3][0], W, {}) == "'X-Goog-Update-AppId'" and terms.render(cb_, rt_[3][1], W, {}) == "param2.app.id":
+                        aid_ = src_ + "@Some.0.app.id"
+        if aid_ is None:
+            R.inconclusive("C15-R2", "header:app-id", "no (HEADER_APP_ID, value) pair found in build_intermediate, its private helpers or a closure mapped over the first entry")
+        else:
+            R.check("C15-R2", "header:app-id", aid_ in tuple(f_ + "@Some.0.app.id" for f_ in FIRSTS), str(aid_), "app-id header <- %s (must be the first entry)" % aid_)
         R.check("C15-R2", "header:interactivity", "'X-Goog-Update-Interactivity'" in hdr, "interactivity header present (value table: C05-R3)", "no interactivity header")
         for k, cname in (("updater", "protocol::request::HEADER_UPDATER_NAME"), ("interactivity", "protocol::request::HEADER_INTERACTIVITY"), ("appid", "protocol::request::HEADER_APP_ID")):
             cv = c.consts.get(cname)
@@ -128,14 +151,17 @@ def run(F, R):
     im = lib.one(R, "C15-R3", c, "RequestBuilder::insert_and_modify_entry", item="insert_and_modify_entry", impl_self=RB)
     if im:
         N = {1: "self", 2: "app", 3: "modify"}
-        find = [t for _, t in im.calls() if lib.callee_is(t, "std::iter::Iterator::find")]
-        ok = len(find) == 1 and terms.render(im, im.trace_op(find[0]["args"][0]), W, N) == "iter_mut(self.app_entries)" and terms.render(im, im.trace_op(find[0]["args"][1]), W, N) == "|$1| eq($1.app.id, app.id)"
-        R.check("C15-R3", "lookup-by-id", ok, "iter_mut().find(|e| e.app.id == app.id)", "entry lookup is %s" % [terms.render(im, im.trace_op(a), W, N) for t in find for a in t["args"]])
+        find = [t for _, t in im.calls() if lib.callee_is(t, "std::iter::Iterator::find") or lib.callee_is(t, "std::iter::Iterator::position")]
+        if not find:
+            R.inconclusive("C15-R3", "lookup-by-id", "insert_and_modify_entry looks the entry up with neither Iterator::find nor Iterator::position; the merge-by-id rule does not read that spelling")
+        else:
+            ok = len(find) == 1 and terms.render(im, im.trace_op(find[0]["args"][0]), W, N) in ("iter_mut(self.app_entries)", "iter(self.app_entries)") and terms.render(im, im.trace_op(find[0]["args"][1]), W, N) == "|$1| eq($1.app.id, app.id)"
+            R.check("C15-R3", "lookup-by-id", ok, "iter_mut().find(|e| e.app.id == app.id) (or position)", "entry lookup is %s" % [terms.render(im, im.trace_op(a), W, N) for t in find for a in t["args"]])
         push = [(bi_, t) for bi_, t in im.calls() if lib.callee_is(t, "push")]
         ok = len(push) == 1 and terms.render(im, im.trace_op(push[0][1]["args"][0]), W, N) == "self.app_entries" and terms.render(im, im.trace_op(push[0][1]["args"][1]), W, N) == "new(app)"
         R.check("C15-R3", "append-new-entry", ok, "otherwise push(AppEntry::new(app)) at the end", "new entries are added with %s" % [lib.norm(t.get("callee")) for _, t in push])
         # found => modify existing (no push); not found => push
-        sw = [b for b in sorted(im.reach0) if im.blocks[b]["t"]["k"] == "switch" and len(im.succ[b]) > 1 and im.switch_subject(b) is not None and (lib.head_call(guards.switch_info(im, b).term) or "").endswith("Iterator::find")]
+        sw = [b for b in sorted(im.reach0) if im.blocks[b]["t"]["k"] == "switch" and len(im.succ[b]) > 1 and im.switch_subject(b) is not None and (lib.head_call(guards.switch_info(im, b).term) or "").endswith(("Iterator::find", "Iterator::position"))]
         if sw and push:
             si = guards.switch_info(im, sw[0])
             some = [(sw[0], b) for b in im.succ[sw[0]] if "Some" in si.edge_names(im, b)]
